@@ -882,10 +882,14 @@ impl Scanner for EntryScanner<'_> {
         self.zonefile.buf.trim_to(self.zonefile.buf.start);
 
         // Skip over symbols that don’t need converting at the beginning.
-        while self.zonefile.buf.next_char_symbol()?.is_some() {}
+        // `write` follows along: it must not move past the closing quote
+        // of a quoted token, which ends the loop having been consumed.
+        let mut write = self.zonefile.buf.start;
+        while self.zonefile.buf.next_char_symbol()?.is_some() {
+            write = self.zonefile.buf.start;
+        }
 
         // If we aren’t done yet, we have escaped characters to replace.
-        let mut write = self.zonefile.buf.start;
         while let Some(sym) = self.zonefile.buf.next_symbol()? {
             write += sym
                 .into_char()?
